@@ -14,4 +14,5 @@ def gen_config(rng, tier):
     for k in list(ops):
         ops[k] *= rng.choice([0.5, 1.0, 2.0])
     faults = ["scribble"] if rng.random() < 0.85 else []
-    return {"n": n, "steps": rng.randrange(6, 40), "ops": ops, "faults": faults, "flags": ["c17"]}
+    return {"n": n, "steps": rng.randrange(6, 40), "ops": ops, "faults": faults, "flags": ["c17"],
+            "backend": "torch" if rng.random() < 0.15 else "numpy"}
